@@ -8,7 +8,7 @@ C23 checker.  Ops:
             | `D<0|1>/<msg>/<primary>/<key>.<key>…` (`_` = no keys) payload built by the real encoder
         → `<numResp> <numErr> k=<key:n,…> p=<key:n,…> m=<from:I|F|M<msg>,…>` (sorted, `-` = empty)
   `listkeys <flavour>`              a real node (recording transport, own packets looped back) runs `ListKeys()`
-        → `<numNodes> <numResp> <numErr> err=<none|fail:e/n|miss:r/n|other>`
+        → `<numNodes> <numResp> <numErr> err=<none|fail:e/n|miss:r/n|other> k=<key:n,…> p=<key:n,…>`
   `klist <limit> <actual> <sfull> <s1>,<s2>,… <keylen> <node> <lt> <id>`   hook `VerifKeyListResponse` (the real truncation loop)
         sfull = size of the untruncated reply, s_j = size of the reply showing j keys with the notice for j,
         both from the real encoders, independently of the loop (`-` = none)
@@ -113,18 +113,21 @@ def monitorAgg (numNodes : Nat) (rs : List NR) (impl : String) : Option (String 
 
 def monitorListKeys (impl : String) : Option (String × String) :=
   match impl.splitOn " " with
-  | [a, b, c, e] =>
-    match a.toNat?, b.toNat?, c.toNat?, dropPrefix "err=" e with
-    | some numNodes, some numResp, some numErr, some err =>
+  | [a, b, c, e, k, p] =>
+    match a.toNat?, b.toNat?, c.toNat?, dropPrefix "err=" e, (dropPrefix "k=" k).bind parseCounts,
+        (dropPrefix "p=" p).bind parseCounts with
+    | some numNodes, some numResp, some numErr, some err, some keys, some prim =>
       let want :=
         if numErr != 0 then s!"fail:{numErr}/{numNodes}"
         else if numResp != numNodes then s!"miss:{numResp}/{numNodes}"
         else "none"
-      if err == want then none
+      if (keys ++ prim).any (fun e => e.2 > numResp) then
+        some ("key-count", s!"a key is reported on more nodes than replied ({numResp})")
+      else if err == want then none
       else if err == "none" then some ("missing-error", s!"no error although numErr={numErr}, numResp={numResp}, numNodes={numNodes}")
       else if want == "none" then some ("spurious-error", s!"error {err} although every one of {numNodes} members replied without failure")
       else some ("wrong-error", s!"error {err}, expected {want}")
-    | _, _, _, _ => some ("malformed", impl)
+    | _, _, _, _, _, _ => some ("malformed", impl)
   | _ => some ("malformed", impl)
 
 def parseSizes (s : String) : Option (List Nat) :=
